@@ -246,23 +246,28 @@ def run(ctx, out):
             raise tlc.MachineryError("the repaired variant of the model violates %s in %s: %s" % (res.invariant_violated or res.property_violated, cfg, res.out[-1500:]))
         out.note("leg M %s: %d distinct states (view), depth %d, %.1fs" % (cfg, res.distinct, res.depth, res.wall_s))
     out.exhaustive = False
-    wd = tlc.prepare_workdir("ReqContext", "c18pinned")
-    res = tlc.run_tlc(wd, "MC_ReqContext", "ReqContext.pinned.cfg", workers=4, timeout=300, allow_violation=True)
-    if res.invariant_violated not in ("SpanStart", "SpanEnd"):
-        raise tlc.MachineryError("self-test failed: the as-written variant of the model (MinMaxPropagation=FALSE) does not violate SpanStart/SpanEnd: %s" % res.out[-800:])
-    out.extra["model_selftest"] = "as-written variant (MinMaxPropagation=FALSE) violates %s in the model after %d steps, as expected" % (res.invariant_violated, len(res.counterexample) - 1)
-    cex = script_from_counterexample(res, rnd)
+    cexs = []
+    selftest = []
+    for cfg, expected in [("ReqContext.pinned.cfg", ("SpanStart", "SpanEnd")), ("ReqContext.pinned2.cfg", ("ViolationsOnlyThroughNone",))]:
+        wd = tlc.prepare_workdir("ReqContext", "c18pinned")
+        res = tlc.run_tlc(wd, "MC_ReqContext", cfg, workers=4, timeout=300, allow_violation=True)
+        if res.invariant_violated not in expected:
+            raise tlc.MachineryError("self-test failed: the as-written variant of the model (MinMaxPropagation=FALSE) does not violate %s in %s: %s" % ("/".join(expected), cfg, res.out[-800:]))
+        selftest.append("%s: as-written variant (MinMaxPropagation=FALSE) violates %s after %d steps, as expected" % (cfg, res.invariant_violated, len(res.counterexample) - 1))
+        cexs.append(script_from_counterexample(res, rnd))
+    out.extra["model_selftest"] = selftest
     # ---- Leg S2C
     feats = {}
     sims = behaviours_from_tlc(ctx, out, "ReqContext.sim.cfg", 350 if quick else 4000, 28 if quick else 40, ctx.seed + 181)
     sims += behaviours_from_tlc(ctx, out, "ReqContext.sim2.cfg", 150 if quick else 2000, 36 if quick else 50, ctx.seed + 182)
     out.note("leg S2C: %d distinct closed scenarios from TLC -simulate" % len(sims))
-    traces = run_cases([cex] + sims, out, "sim", feats)
-    out.sample({"source": "tlc-counterexample (as-written variant)", "roots": cex["roots"], "steps": cex["steps"], "recorded_last_event": traces[0]["ev"][-1]})
+    traces = run_cases(cexs + sims, out, "sim", feats)
+    for i, cex in enumerate(cexs):
+        out.sample({"source": "tlc-counterexample (as-written variant)", "roots": cex["roots"], "steps": cex["steps"], "recorded_last_event": traces[i]["ev"][-1]})
     longest = max(range(len(sims)), key=lambda i: len(sims[i]["steps"]))
     out.sample({"source": "tlc-simulate", "roots": sims[longest]["roots"], "steps": sims[longest]["steps"][:40]})
     comps = []
-    for sc in [cex] + sims:
+    for sc in cexs + sims:
         c = R.composite_from_script(sc, rnd)
         if c is not None:
             c["src"] = "tlc-simulate/composite"
